@@ -158,6 +158,12 @@ fn replay(id: &str, path: &str) -> i32 {
                     long_line(&ctx, &p, case["plies"].as_u64().unwrap_or(3000) as usize, case["rule"].as_u64().unwrap_or(7));
                 }
             }
+            "long_move_list" => {
+                let fen = case["fen"].as_str().unwrap_or("");
+                if let Ok(p) = Pos::from_fen(fen) {
+                    crate::input_checks::long_list_check(&rep, &p, &std::sync::atomic::AtomicU64::new(0));
+                }
+            }
             "line" => {
                 let fen = case["fen"].as_str().unwrap_or("");
                 let depth = case["line"].as_array().map(|a| a.len()).unwrap_or(1);
@@ -396,6 +402,14 @@ fn run_board(prop: Prop, tier: Tier) -> i32 {
         });
         let after = ctx.states.load(std::sync::atomic::Ordering::Relaxed);
         fams.push(json!({"family": "CLOCKS", "roots": cr.len(), "states": after - before, "halves": CLOCK_HALVES, "fulls": CLOCK_FULLS, "c03_exhaustive_halfmove_0_4095": prop == Prop::C03, "secs": t0.elapsed().as_secs_f64()}));
+    }
+
+    // C02 also through the list entry point: long lists with repeated tokens on every root
+    if prop == Prop::C02 {
+        let t0 = Instant::now();
+        let n = std::sync::atomic::AtomicU64::new(0);
+        par_map(&roots, |p| crate::input_checks::long_list_check(&rep, p, &n));
+        fams.push(json!({"family": "make_all_uci on shuffle lists of 5..41 plies with repeated tokens, with and without an impossible last token", "lists": n.load(std::sync::atomic::Ordering::Relaxed), "secs": t0.elapsed().as_secs_f64()}));
     }
 
     // property-specific extras
